@@ -6,12 +6,12 @@ from . import core
 
 BUILTIN = ["bool", "string", "int", "float", "strings", "ints", "floats"]
 MULTI = {"strings", "ints", "floats"}
-VALID = {"int": ["41", "7", "12", "99", "-3", "+8", "0", "123456789"],
+VALID = {"int": ["41", "010", "12", "0099", "-3", "+8", "0", "123456789"],
          "float": ["2.5", "1e3", "-0.5", "7", ".25", "1e-2", "3.", "64"],
          "bool": ["true", "false", "1", "T", "FALSE", "0", "t", "F"],
          "string": ["alpha", " pad ", "-g", "d=e", "be ta", "Zeta", "x,y", "7"],
          "custom": ["t1", "t2", "t3", "t4", "t5", "t6", "t7", "t8"]}
-INVALID = {"int": ["zz", "4x", "0x10", "1_0"], "float": ["1.2.3", "x1", "1e", "--2"], "bool": ["maybe", "yes", "tRuE", "2"],
+INVALID = {"int": ["zz", "0x10", "0b11", "1_0"], "float": ["1.2.3", "x1", "1e", "--2"], "bool": ["maybe", "yes", "tRuE", "2"],
            "custom": ["bad", "bad2", "bad3", "bad4"]}
 DEFAULTS = {"bool": [False, True], "string": ["dflt", ""], "int": [5, 0], "float": [1.5, 0.0],
             "strings": [["d1", "d2"], []], "ints": [[3, 4], []], "floats": [[0.5, 8.0], []]}
